@@ -6,13 +6,14 @@ From EDP Require Import Gen.HashFields.
 Import ListNotations.
 Open Scope string_scope.
 
-(* what Order/Cmp.v (cmp_pid, cmp_owned), Order/EqLaws.v (alleq) and Order/HashStream.v (hpid, hstream) use *)
+(* what Order/Cmp.v (cmp_pid, cmp_owned), Order/EqLaws.v (alleq) and Order/HashStream.v (hpid, hstream) use; the fields of ==
+   and of the hash as sets (sorted by name), those of the order in comparison order *)
 Definition model_id_fields : list (string * list string * list string * list string) :=
-  [("ExternalPid", ["node"; "id"; "serial"; "creation"], ["node"; "id"; "serial"; "creation"], ["node"; "id"; "serial"; "creation"]);
-   ("ExternalPort", ["node"; "id"; "creation"], ["node"; "id"; "creation"], ["node"; "id"; "creation"]);
-   ("ExternalReference", ["node"; "creation"; "ids"], ["node"; "creation"; "ids"], ["node"; "creation"; "ids"])].
+  [("ExternalPid", ["creation"; "id"; "node"; "serial"], ["creation"; "id"; "node"; "serial"], ["node"; "id"; "serial"; "creation"]);
+   ("ExternalPort", ["creation"; "id"; "node"], ["creation"; "id"; "node"], ["node"; "id"; "creation"]);
+   ("ExternalReference", ["creation"; "ids"; "node"], ["creation"; "ids"; "node"], ["node"; "creation"; "ids"])].
 Definition model_fun_hash_fields : list string :=
-  ["arity"; "uniq"; "index"; "num_free"; "module"; "old_index"; "old_uniq"; "pid"; "free_vars"].
+  ["arity"; "free_vars"; "index"; "module"; "num_free"; "old_index"; "old_uniq"; "pid"; "uniq"].
 
 Fixpoint sl_eqb (a b : list string) : bool :=
   match a, b with
@@ -24,7 +25,8 @@ Fixpoint sl_eqb (a b : list string) : bool :=
 (* ==, hash and order of one identifier type look at the same fields, and never at the preserved bytes *)
 Definition row_lawful (r : string * list string * list string * list string) : bool :=
   let '(_, e, h, o) := r in
-  sl_eqb e h && sl_eqb e o && negb (existsb (String.eqb "local_ext_bytes") e).
+  sl_eqb e h && forallb (fun f => existsb (String.eqb f) o) e && forallb (fun f => existsb (String.eqb f) e) o &&
+  negb (existsb (String.eqb "local_ext_bytes") e).
 
 Lemma identifier_fields_lawful : forallb row_lawful id_fields = true.
 Proof. vm_compute. reflexivity. Qed.
